@@ -909,6 +909,7 @@ func (g *gen) rolloutFinalize(i int, seed uint64) *scenario {
 	sc.Family = "rollout-finalize"
 	sc.Ctl.Finalize = true
 	sc.Hook.FinalizedForImage = []string{"v1", "v2"}[r.Intn(2)]
+	sc.Hook.FinalizeKeeps = r.Chance(2, 3)
 	ref := sc.parentRef()
 	ref.Op, ref.Data = "deleting", nil
 	at := 1 + r.Intn(2)
